@@ -1,7 +1,8 @@
 /-
   Model of src/portfolio/bookkeeping/costs.rs (`calc_total_costs` and its two helpers), as
   repaired by the `fix:` commits for F-17 (carry the closing cost of a day forward, not the day's
-  maximum) and F-09b (the yearly maximum visits the days in date order).
+  maximum), F-09b (the yearly maximum visits the days in date order) and F-09d (the second loop
+  walks the securities in name order).
 
   * A `TxDelta` is seen only through the fields the code reads: security, settlement date, pre and
     post `total_acb` (`none` = registered affiliate), `tx.affiliate.is_default()`, and the
@@ -151,13 +152,17 @@ structure Result where
   yearly : Int → Option Int  -- `yearly`: year ↦ day whose entry was cloned
   notes : List Note          -- ignored_deltas
 
+/-- the order in which the second loop walks `security_set`: since the fix for F-09d the set's
+    elements (yielded in the arbitrary order `σ`) are sorted by name first -/
+def secWalk (σ : List Nat → List Nat) : List Nat → List Nat := fun l => sortNats (σ l)
+
 /-- `calc_total_costs` -/
 def calcTotalCosts (yearOf : Int → Int) (rows : List Row)
     (σ : List Nat → List Nat) (τ : List Int → List Int) : Except Panic Result :=
   match loop1 rows St.init with
   | .error e => .error e
   | .ok st =>
-    let f := loop2 st σ τ
+    let f := loop2 st (secWalk σ) τ
     .ok { secs := st.secs, days := sortDays (τ st.days), tab := f.tab,
           yearly := yearly yearOf f.tab.total st.days τ, notes := st.notes }
 
